@@ -3,7 +3,7 @@ NEXT Next
 CONSTANTS
   Signs <- Both
   Sigs <- SigUnc
-  Exps <- ExpStep
+  Exps <- ExpUncT
   Precs = {}
   UncSigs <- USig
   UncOffs = {0, 1, 2, 3, 4, 5, 6, 7, 8}
